@@ -317,6 +317,47 @@ fn sweep_behind_table_with_leaps(cyc: &Cycle, tabs: &Tables, rec: &Recorder) -> 
     Tally { rules: 0, ..t }
 }
 
+/// every notation of the first and last twelve days of the year (and the first / last weeks of January and December) with
+/// the day times and offsets that move a transition furthest into the neighbouring year, both as start and as end
+fn sweep_year_edge_days(tabs: &Tables, rec: &Recorder, kf1_open: bool) -> Tally {
+    let mut edge: Vec<Day> = vec![];
+    for n in 1..=12u16 {
+        edge.push(Day::J(n));
+        edge.push(Day::J(366 - n));
+        edge.push(Day::Z(n - 1));
+        edge.push(Day::Z(366 - n));
+    }
+    for d in 0..7u8 {
+        for (m, w) in [(1u8, 1u8), (1, 2), (12, 4), (12, 5)] {
+            edge.push(Day::M(m, w, d));
+        }
+    }
+    let partners = [Day::J(100), Day::J(200), Day::Z(180), Day::M(6, 2, 3), Day::M(3, 5, 0), Day::M(10, 5, 0)];
+    let combos = quick_combos();
+    let extreme: Vec<(i64, i64, (i64, i64))> = vec![combos[7], combos[8], combos[9], combos[10], combos[12], combos[13], combos[14], combos[15], (-7 * D + 1, 2 * H, (26 * H - 1, 25 * H)), (2 * H, -7 * D + 1, (25 * H, 26 * H - 1)), (167 * H, 2 * H, (-25 * H + 1, -24 * H)), (2 * H, 167 * H, (-24 * H, -25 * H + 1))];
+    let mut specs: Vec<RuleSpec> = vec![];
+    for &e in &edge {
+        for &p in &partners {
+            for &(st, et, o) in &extreme {
+                specs.push(spec(e, p, st, et, o));
+                specs.push(spec(p, e, st, et, o));
+            }
+        }
+    }
+    let t = specs
+        .par_iter()
+        .map(|r| {
+            let mut tl = Tally::default();
+            if let Err(m) = guard(|| check_rule(tabs, r, 2000, 2399, rec, "year_edge_days", &mut tl, kf1_open)) {
+                rec.violation("year_edge_days", json!({"kind":"rule","rule":spec_json(r),"t":null,"year":2000}), json!("no panic"), json!(m));
+            }
+            tl
+        })
+        .reduce(Tally::default, Tally::merge);
+    rec.sub("year_edge_days", json!({"rules_generated": specs.len(), "explored": t.rules, "refused_by_constructor": t.rejected, "not_interleaving_or_degenerate": t.skipped_class, "probes": t.evals}));
+    t
+}
+
 /// years far from the explored 400-year window: the rule model is periodic in the year, an implementation need not be (an
 /// estimate that drifts, a narrowing of the year): every year 2400..=12 000 and every 99 991st year of the i32 range for 72
 /// rules, six probes per year
@@ -515,7 +556,49 @@ fn sweep_string_path(tabs: &Tables, rec: &Recorder, tl: &mut Tally, kf1_open: bo
             }
         }
     }
-    rec.sub("string_path", json!({"strings_parsed": parsed, "probes": n}));
+    // the same through version-3 footers with extended day times (negative, beyond 24 h, sub-hour negative such as -0:30)
+    let mut fparsed = 0u64;
+    for (i, &a) in days.iter().enumerate() {
+        for (j, &b) in days.iter().enumerate() {
+            if (i + 3 * j) % 7 != 0 {
+                continue;
+            }
+            for (st, et) in [(-1800i64, -1), (-H - 1800, 25 * H + 59), (-30, 30), (-167 * H, 167 * H)] {
+                let r = spec(a, b, st, et, offsets()[(i + j) % 5]);
+                let s = tz_string(&r);
+                let z = match tz::TimeZone::from_tz_data(&crate::tzstr::footer_file(b'3', s.as_bytes())) {
+                    Ok(z) => z,
+                    Err(_) => continue,
+                };
+                fparsed += 1;
+                let line = Timeline::from_tables(&r, tabs.tab(r.start), tabs.tab(r.end));
+                let class = line.classify();
+                if !matches!(class, Class::StartFirst | Class::EndFirst) {
+                    continue;
+                }
+                let (ms, md) = (std_type(&r), dst_type(&r));
+                for y in 2019..=2024 {
+                    for t in [line.sy(y) - 1, line.sy(y), line.ey(y) - 1, line.ey(y)] {
+                        let uy = tabs.utc_year_near(t, y);
+                        let exp = line.is_dst(class, t, uy);
+                        n += 1;
+                        tl.evals += 1;
+                        let got = z.find_local_time_type(t);
+                        let ok = matches!(&got, Ok(l) if same_type(l, if exp { &md } else { &ms }));
+                        if !ok {
+                            if kf1_open && class == Class::EndFirst && line.tie_in_year(uy) {
+                                tl.kf1 += 1;
+                                rec.known_hit("KF1", || json!({"tz": s, "t": t}));
+                            } else {
+                                rec.violation("string_path", json!({"kind":"string","tz":s,"rule":spec_json(&r),"t":t,"year":y}), json!({"is_dst": exp, "route": "v3 footer"}), json!(format!("{:?}", got.map(type_json))));
+                            }
+                        }
+                    }
+                }
+            }
+        }
+    }
+    rec.sub("string_path", json!({"strings_parsed": parsed, "v3_footers_parsed": fparsed, "probes": n}));
 }
 
 pub fn run(args: &Args) -> i32 {
@@ -593,6 +676,9 @@ pub fn run(args: &Args) -> i32 {
         total = total.merge(t);
     }
     total = total.merge(sweep_behind_table_with_leaps(&cyc, &tabs, &rec));
+    if !args.digest_mode {
+        total = total.merge(sweep_year_edge_days(&tabs, &rec, kf1_open));
+    }
     if !args.digest_mode {
         total = total.merge(sweep_far_years(&cyc, &rec, thorough));
     }
